@@ -97,7 +97,8 @@ def poolScript (args impl : List String) : Option (String × String) := do
 def poolSpec (_args impl : List String) : Option (String × String) :=
   let bad := impl.filter fun (t : String) =>
     (t.startsWith "diff=" ∧ t ≠ "diff=0") ∨ (t.startsWith "notUsable=" ∧ t ≠ "notUsable=0") ∨
-    (t.startsWith "shared=" ∧ t ≠ "shared=0") ∨ (t.startsWith "overflight=" ∧ t ≠ "overflight=0") ∨ t = "done=0" ∨ t.startsWith "timeout"
+    (t.startsWith "shared=" ∧ t ≠ "shared=0") ∨ (t.startsWith "overflight=" ∧ t ≠ "overflight=0") ∨ t = "done=0" ∨ t.startsWith "timeout" ∨
+    (t.startsWith "started=" ∧ t ≠ "started=0") ∨ t = "workers-never-finished"
   some ("-", if impl.isEmpty then "FAIL no-impl-output" else match bad with
     | [] => "ok"
     | b :: _ =>
@@ -105,6 +106,7 @@ def poolSpec (_args impl : List String) : Option (String × String) :=
       else if b.startsWith "notUsable" then "FAIL idle-workers-did-not-pick-up-pending-requests"
       else if b.startsWith "shared" then "FAIL two-concurrent-iterations-shared-a-handle"
       else if b.startsWith "overflight" then "FAIL more-than-concurrency-iterations-in-flight"
+      else if b.startsWith "started=" then s!"FAIL iterations-started-by-a-pool-whose-context-had-already-ended-{b}"
       else s!"FAIL {b}")
 
 end F1.Drive
